@@ -2,6 +2,7 @@
 correspondence against gds21::GdsFloat64::{encode,decode}."""
 import json, struct
 from vlib import *
+from props.kernelcommon import kernel_tie_leg
 from props import layerb
 
 OPS = {"dec": 1, "encdec": 2, "decenc": 3}
@@ -93,6 +94,7 @@ def evaluate(chk, cases, tag):
 
 def run(chk, replay=None):
     chk.proof_leg(["Gds/GdsRealCheck.vo"], "Properties/C15.v", ["Gds/GdsReal_proofs.v"], "Properties.C15")
+    kernel_tie_leg(chk, "gds")
     # Layer B: the Z-level binary64 operations of the model are Flocq's IEEE-754 operations (Properties/C15B.v).
     # Its theorems depend on the real-number axioms of the standard library; Properties/C15.v must stay closed.
     layerb_ok = layerb.flocq_leg(chk, "Properties/C15B.v", "Properties.C15B")
